@@ -355,8 +355,49 @@ def run(ctx):
                 if abs(got - want) > 1e-9 * max(1.0, want) + 1e-9:
                     ctx.violation(f"C14:{label}:wrong-uncertainty:scale-with-zero-point",
                                   f"{label}: {A!r} and {B_!r} (gauge against absolute pressure): uncertainty {got!r}, first-order propagation gives {want!r}", state["case"])
+        # two scales that share their zero point (degC and a user scale whose zero is 273.15 K, one with a degree of its
+        # own size): nothing to subtract, yet the uncertainty still converts by the size of the degree
+        K_, C_ = m.Unit._by_name["kelvin"], m.Unit._by_name["celsius"]
+        twin = m.Temperature.scale(273.15 * K_, f"zqc14twin{ctx.shard}", f"zqc14tw{ctx.shard}")
+        big = m.Temperature.unit(f"zqc14bigdeg{ctx.shard}", f"zqc14bd{ctx.shard}")
+        big.equals(2 * K_)
+        coarse = m.Temperature.scale(136.575 * big, f"zqc14coarse{ctx.shard}", f"zqc14co{ctx.shard}")
+        size = {C_: 1.0, twin: 1.0, coarse: 2.0, K_: 1.0}
+        for _ in range(40 if ctx.tier == "quick" else 2000):
+            ul_, ur_ = rng.sample([C_, twin, coarse, K_], 2)
+            x, y = rng.choice([20, 0, 36.6, -5]), rng.choice([5, 50, 0.25])
+            sx, sy = rng.choice([0, 0.5, 2]), rng.choice([0, 0.4, 1.5])
+            A, B_ = Mt(Q(x, ul_), sx), Mt(Q(y, ur_), sy)
+            state["case"] = {"op": "add/sub", "left": repr(A), "right": repr(B_), "scales_sharing_a_zero_point": True}
+            ctx.count("evaluations")
+            ctx.count("cells/scales_sharing_a_zero_point")
+            for label, res, lsx in (("__add__", A + B_, sx), ("__sub__", A - B_, sx), ("__radd__", A.measurand + B_, 0.0)):
+                want = math.hypot(lsx, sy * size[ur_] / size[ul_])
+                got = core.sf(res.uncertainty.magnitude)
+                ctx.distinct(("shared-zero", label, str(ul_), str(ur_), bool(sx), bool(sy)), bool(sx) or bool(sy))
+                if abs(got - want) > 1e-9 * max(1.0, want) + 1e-9:
+                    ctx.violation(f"C14:{label}:wrong-uncertainty:scale-with-zero-point",
+                                  f"{label}: {A!r} and {B_!r} (two scales with one zero point): uncertainty {got!r}, first-order propagation gives {want!r}", state["case"])
     except KeyError:
         ctx.count("user_scale_section_skipped")
+    # quotients (and products back) of very large or very small float readings: the operands' ratio and every
+    # partial-derivative term are ordinary numbers, only a careless intermediate product would leave the float range
+    U_ = m.Unit._by_name
+    for _ in range(60 if ctx.tier == "quick" else 3000):
+        p10 = rng.choice([160, 200, 250, -160, -200, -161])
+        x, y = rng.choice([6.0, 2.5, -3.0]) * 10.0 ** p10, rng.choice([3.0, 1.25, 8.0]) * 10.0 ** p10
+        sx, sy = abs(x) * rng.choice([0.01, 0.0, 0.2]), abs(y) * rng.choice([0.01, 0.05, 0.0])
+        A, B_ = Mt(Q(x, U_["meter"]), sx), Mt(Q(y, U_["second"]), sy)
+        side = rng.choice(["M-M", "M-Q", "Q-M"])
+        left, right = (A, B_) if side == "M-M" else (A, B_.measurand) if side == "M-Q" else (A.measurand, B_)
+        state["case"] = {"op": "truediv", "side": side, "left": repr(left), "right": repr(right), "extreme_magnitudes": True}
+        ctx.count("evaluations")
+        ctx.count("cells/truediv/extreme_float_magnitudes")
+        ctx.distinct(("extreme", side, p10 > 0, bool(sx), bool(sy)), True)
+        try:
+            left / right
+        except Exception as ex:
+            ctx.violation(f"C14:__truediv__:raised-{type(ex).__name__}", f"({left!r}) / ({right!r}) raised {ex}", state["case"])
     n = ctx.scale(40000, 1_000_000) // 2
     ops = [("add", operator.add), ("sub", operator.sub), ("mul", operator.mul), ("truediv", operator.truediv), ("pow", None)]
     for i in range(n):
@@ -433,6 +474,21 @@ def run(ctx):
         except (ZeroDivisionError, OverflowError, ArithmeticError):
             ctx.count(f"arithmetic_error/{opname}")
             continue
+        if isinstance(left, Mt) and opname != "pow" and rng.random() < 0.03:
+            # fresh measurement objects used once, their stated uncertainty revised (a public attribute), and used again:
+            # the post-conditions judge each operation by what the operands say at that moment
+            try:
+                l2 = Mt(left.measurand, left.uncertainty)
+                r2 = Mt(right.measurand, right.uncertainty) if isinstance(right, Mt) else right
+                fn(l2, r2)
+                l2.uncertainty = Q(l2.uncertainty.magnitude * 2 + type(l2.uncertainty.magnitude)(1), l2.uncertainty.unit)
+                if isinstance(r2, Mt):
+                    r2.uncertainty = Q(r2.uncertainty.magnitude * 3, r2.uncertainty.unit)
+                ctx.count("operations_repeated_after_the_uncertainty_was_revised")
+                state["case"] = {**state["case"], "uncertainties_revised": True, "left": repr(l2), "right": repr(r2)}
+                fn(l2, r2)
+            except (CNF, TypeError, m.FractionalDimensionError, ZeroDivisionError, OverflowError, ArithmeticError):
+                pass
         if i % 1500 == 13:
             ctx.sample({"op": opname, "left": str(left), "right": str(right) if opname != "pow" else e, "result": str(res)})
         # unit invariance: re-express the right operand (or the base for pow) in another unit
